@@ -453,7 +453,10 @@ def selftest(full):
     devs = [r for r in res['reports'] if r['tag'] == 'DEV']
     expect('good-trace-accepted', not viol and not devs, '(%d events)' % res['n'])
     evs = [json.loads(l) for l in lines]
-    swaps = [i for i, e in enumerate(evs) if e['k'] == 'tx' and e['res']['ok'] and any(x.get('action') == 'swap' for x in e['res']['events'])]
+    # successful swaps followed by another successful transaction (the reference step of a *failed* successor compares
+    # outcomes only, so a dropped event before it shows up in the property clauses but not as a deviation)
+    swaps = [i for i, e in enumerate(evs) if e['k'] == 'tx' and e['res']['ok'] and any(x.get('action') == 'swap' for x in e['res']['events'])
+             and i + 1 < len(evs) and evs[i + 1]['k'] == 'tx' and evs[i + 1]['res']['ok']]
 
     def run_variant(name, mutate, want_props):
         es = [json.loads(l) for l in lines]
